@@ -108,6 +108,18 @@ class Scanner:
             if base is None:
                 return None
             return sp.Indexed(sp.IndexedBase(base), *idx)
+        if k == "CXXOperatorCallExpr" and n.get("op") in ("+", "-", "*", "/") and len(n.get("args", [])) == 2 and \
+                "complex" in (n.get("ctype") or ""):
+            try:
+                a, b = tr.conv(n["args"][0]), tr.conv(n["args"][1])
+            except Unconvertible:
+                return None
+            return {"+": a + b, "-": a - b, "*": a * b, "/": a / b}[n["op"]]
+        if k == "CXXOperatorCallExpr" and n.get("op") == "-" and len(n.get("args", [])) == 1 and "complex" in (n.get("ctype") or ""):
+            try:
+                return -tr.conv(n["args"][0])
+            except Unconvertible:
+                return None
         if k == "CXXOperatorCallExpr" and n.get("op") == "()" and n.get("args"):
             # functor call (e.g. a random distribution): an uninterpreted, fresh value per evaluation site
             return sp.Symbol("%s()@%d" % (A.show(n["args"][0]).replace(" ", ""), n["id"]), real=True)
